@@ -138,7 +138,7 @@ def one(ctx, i, tmpdir):
     with open(in_fn, "w") as f:
         f.write(src)
     type_ = ("class", "argparse", "function")[i % 3]
-    tpl = ("{name}Config", "Gen_{name}", "{name}")[(i // 3) % 3]
+    tpl = ("{name}Config", "Gen_{name}", "{name}", "_{name}Impl")[(i // 3) % 4]
     prepend = "PREPENDED_ZQ = {}\n".format(i) if (i // 9) % 2 else None
     imports_from_file = in_fn if (i // 18) % 2 else None
     if imports_from_file and prepend and i % 4 == 0:
